@@ -33,4 +33,9 @@ flags=""; [ "$v" = iter ] && flags="-time"
 (cd "$REPO" && "$VERIF_ROOT/.build/bin/vgen" $flags -dir "$REPO" -out "$VERIF_ROOT/$gen" ${VERIF_EXTRA_OVERLAY:+-overlay "$VERIF_EXTRA_OVERLAY"} $pkgs)
 python3 tools/mkoverlay.py "$gen/ov.json" ${VERIF_EXTRA_OVERLAY:+--merge "$VERIF_EXTRA_OVERLAY"} --merge "$gen/overlay.json"
 (cd "$REPO" && go build -modfile="$VERIF_MODFILE" -tags verif -overlay "$VERIF_ROOT/$gen/ov.json" -o "$VERIF_ROOT/.build/bin/$v" $(main_of "$v"))
+if [ "$v" = q ] && [ "${VERIF_TIER:-quick}" = thorough -o -n "${VERIF_BUILD_RACE:-}" ]; then
+  # free-running -race companion (uninstrumented sources; overlay only provides the harness package)
+  python3 tools/mkoverlay.py "$gen/ov-plain.json" ${VERIF_EXTRA_OVERLAY:+--merge "$VERIF_EXTRA_OVERLAY"}
+  (cd "$REPO" && go build -race -modfile="$VERIF_MODFILE" -tags verif -overlay "$VERIF_ROOT/$gen/ov-plain.json" -o "$VERIF_ROOT/.build/bin/qrace" ./internal/verifh/cmd/qrace)
+fi
 rm -rf ".build/gen-$v"; mv "$gen" ".build/gen-$v"
